@@ -9,6 +9,8 @@
 import Proofs.Metadata
 import Proofs.Parsers
 import Proofs.NetworkMeta
+import Proofs.NetworkMultiMeta
+import Props.C01
 namespace C08
 open Esdt
 
@@ -224,5 +226,49 @@ theorem metadata_intact_entry (m0 : MetaData) (k : Bytes) (e : Env) (steps : Lis
     (A : Accts) (hA : A ∈ (nftRun e steps w).shards) (a : Bytes) (t : Token)
     (hne : A.read a k ≠ []) (hdec : decToken (A.read a k) = some t) : t.md = some m0 :=
   (metadata_intact_history m0 k e steps w hI hM hok).shards A hA a t hne hdec
+
+/-- FULL (history level, MultiESDTNFTTransfer): along ANY history of multi-transfer transactions (any mix of fungible, SFT
+    and NFT items, repeated items, same-shard or cross-shard), deliveries in any order, failed deliveries turned into
+    refunds, and refunds — aliasing token identifiers included — every copy of an NFT keeps the metadata it started with:
+    if every entry stored under key `k` (any account, any shard) and every item in flight that will be credited under `k`
+    carries metadata `m0` in the initial world, so does every one in every reachable world; and no fungible item is ever
+    credited under `k` (`loopMd`).  Hypotheses on the initial world only (`MWorldInv`, see C01.multi_conservation_history). -/
+theorem multi_metadata_intact_history (m0 : MetaData) (k : Bytes) (e : Env) (steps : List NStep) (w : MWorld)
+    (hI : MWorldInv e w) (hM : MMdInv m0 k w) (hok : ∀ s ∈ steps, MultiStepOK s) :
+    MMdInv m0 k (multiRun e steps w) :=
+  multiRun_md m0 k e steps w hI hM hok
+
+/-- spelled out for a stored entry of a reachable world -/
+theorem multi_metadata_intact_entry (m0 : MetaData) (k : Bytes) (e : Env) (steps : List NStep) (w : MWorld)
+    (hI : MWorldInv e w) (hM : MMdInv m0 k w) (hok : ∀ s ∈ steps, MultiStepOK s)
+    (A : Accts) (hA : A ∈ (multiRun e steps w).shards) (a : Bytes) (t : Token)
+    (hne : A.read a k ≠ []) (hdec : decToken (A.read a k) = some t) : t.md = some m0 :=
+  (multi_metadata_intact_history m0 k e steps w hI hM hok).shards A hA a t hne hdec
+
+/-- non-vacuity: the two-shard world of C01's multi-transfer example meets `MMdInv` for the SFT's key and metadata (its
+    `MWorldInv` is proved there), and after the transfer and the delivery bob's copy decodes with that metadata -/
+example : MMdInv { nonce := 1, name := [110], creator := C01.nvAlice, hash := [104] } C01.nvKey C01.nvMW0 := by
+  refine ⟨?_, fun m hm => (by cases hm)⟩
+  intro A hA
+  simp only [C01.nvMW0, List.mem_cons, List.not_mem_nil, or_false] at hA
+  rcases hA with rfl | rfl
+  · intro a t hne hdec
+    have hread : C01.nvMA0.read a C01.nvKey =
+        if C01.nvAlice = a ∧ C01.nvFKey = C01.nvKey then encToken C01.nvFEntry
+        else if C01.nvAlice = a ∧ C01.nvKey = C01.nvKey then encToken C01.nvEntry else [] := by
+      unfold C01.nvMA0; rw [Accts.read_write, Accts.read_write]; rfl
+    have hk : ¬ (C01.nvFKey = C01.nvKey) := by decide
+    rw [hread, if_neg (fun h => hk h.2)] at hne hdec
+    split at hne
+    · rename_i h
+      rw [if_pos h, C01.nvEntry_dec] at hdec
+      cases hdec; rfl
+    · exact absurd rfl hne
+  · intro a t hne _; exact absurd rfl hne
+
+example : (match ((multiRun C01.nvEnv [.user C01.nvMXfer, .deliver 0] C01.nvMW0).shards[1]?).map
+      (fun A => decToken (A.read C01.nvBob C01.nvKey)) with
+    | some (some t) => t.md == some { nonce := 1, name := [110], creator := C01.nvAlice, hash := [104] } && t.value == some 3
+    | _ => false) = true := by decide +kernel
 
 end C08
